@@ -69,6 +69,10 @@ val cmp_holds : cmp_op -> comparison -> bool
 
 val same_type : coq_val -> coq_val -> bool
 
+val cmp_int_float : coq_Z -> coq_N -> comparison
+
+val cmp_values : coq_val -> coq_val -> comparison option
+
 val like_match : nat -> coq_N list -> coq_N list -> bool
 
 val and3 : coq_val -> coq_val -> eres
